@@ -109,11 +109,14 @@ Lemma hevc_parse_record_header c vps sps pps :
   lenN vps < 65536 -> lenN sps < 65536 -> lenN pps < 65536 ->
   hevc_parse_record (hevc_header c vps sps pps) = Ok (vps, sps, pps).
 Proof.
-  intros Hv Hs Hp. unfold hevc_parse_record.
-  assert (H27 : idx (hevc_header c vps sps pps) 27 = Ok 3) by reflexivity.
-  rewrite H27. cbn [bind N.eqb Pos.eqb orb negb].
+  intros Hv Hs Hp. unfold hevc_parse_record, hevc_parse_record_f.
   assert (Hlen : lenN (hevc_header c vps sps pps) = 43 + lenN vps + lenN sps + lenN pps).
   { unfold hevc_header. rewrite !lenN_app, hevc_pre_len, !hevc_array_len. lia. }
+  rewrite Hlen at 1.
+  replace (43 + lenN vps + lenN sps + lenN pps <? 33) with false by (symmetry; apply N.ltb_ge; lia).
+  cbn [andb].
+  assert (H27 : idx (hevc_header c vps sps pps) 27 = Ok 3) by reflexivity.
+  rewrite H27. cbn [bind N.eqb Pos.eqb orb negb].
   (* VPS array *)
   replace 28 with (lenN (hevc_pre c)) at 1 by apply hevc_pre_len.
   unfold hevc_header at 1.
@@ -153,7 +156,9 @@ Lemma hevc_parse_header c vps sps pps :
   hevc_parse_seq_header (hevc_header c vps sps pps) = Ok (vps, sps, pps)
   /\ hevc_parse_enhanced_seq_header (hevc_header c vps sps pps) = Err err_hevc.
 Proof.
-  intros Hv Hs Hp. unfold hevc_parse_seq_header, hevc_parse_enhanced_seq_header.
+  intros Hv Hs Hp. unfold hevc_parse_seq_header, hevc_parse_enhanced_seq_header,
+    hevc_parse_seq_header_f, hevc_parse_enhanced_seq_header_f.
+  fold hevc_parse_record.
   assert (Hlen : lenN (hevc_header c vps sps pps) = 43 + lenN vps + lenN sps + lenN pps).
   { unfold hevc_header. rewrite !lenN_app, hevc_pre_len, !hevc_array_len. lia. }
   rewrite Hlen, hevc_parse_record_header by assumption.
